@@ -493,6 +493,9 @@ class Fn:
             return ia < ib
         return ba in self.dominators().get(bb, ())
 
+    def dominates_block(self, a, b):
+        return a == b or a in self.dominators().get(b, ())
+
     def postdominates(self, a, b):
         """Element a post-dominates element b on normal paths."""
         pos = self.positions()
